@@ -11,11 +11,12 @@ impl Layout {
     pub(super) fn new(start: i64, end: i64) -> Option<Self> {
         let min = start;
         let max = end;
-        let len = (max - min + 1) as usize;
-        if len < Heap32::POWER as usize {
+        // the span is taken in i128: `max - min` does not fit i64 for domains of more than i64::MAX points
+        let span = (max as i128 - min as i128) as u64;
+        if span < Heap32::POWER as u64 {
             return None;
         }
-        let p = (len - 1).ilog2() + 1;
+        let p = span.ilog2() + 1;
         if p < Heap32::POWER {
             return None;
         }
@@ -26,7 +27,7 @@ impl Layout {
 
     #[inline]
     pub(super) fn index(&self, value: i64) -> u32 {
-        ((value - self.min) >> self.scale) as u32
+        ((value as i128 - self.min as i128) as u64 >> self.scale) as u32
     }
 
     #[inline]
